@@ -549,11 +549,16 @@ template <class V, class T, bool PORTABLE> struct Mach : MachBase
         }
         else if (op == "resize")
         {
+            size_t before = mv.size(), capb = v->capacity();
+            // dirty the spare slots of an int vector explicitly: resize must VALUE-initialise (0), whatever was there
+            if (!TRK && v->data())
+                for (size_t k = before; k < capb; k++)
+                    memset((void *)(v->data() + k), 0x5a, sizeof(T));
             BEGIN_EV;
             v->resize(I(2));
             END_EV;
             mv.resize(I(2));
-            o.tag((size_t)I(2) > mv.size() ? "resize-grow" : "resize-shrink");
+            o.tag((size_t)I(2) > before ? ((size_t)I(2) <= capb ? "resize-grow-in-capacity" : "resize-grow-realloc") : "resize-shrink");
         }
         else if (op == "reserve")
         {
@@ -1007,6 +1012,25 @@ template <class K, class Cmp> struct FlatMirror : MirrorBase
             exp = it == mm.end() ? "0" : std::to_string(it->second);
             o.tag(it == mm.end() ? "cget-absent" : "cget-present");
         }
+        else if (op == "mmisc")
+        { // hosted only: forward | reverse | all the other members consistent
+            std::string f, r;
+            for (auto it = mm.begin(); it != mm.end(); ++it)
+                f += (f.empty() ? "" : ",") + std::to_string(unbox(it->first)) + ">" + std::to_string(it->second);
+            for (auto it = mm.rbegin(); it != mm.rend(); ++it)
+                r += (r.empty() ? "" : ",") + std::to_string(unbox(it->first)) + ">" + std::to_string(it->second);
+            exp = (f.empty() ? "-" : f) + "|" + (r.empty() ? "-" : r) + "|1";
+        }
+        else if (op == "smisc")
+            exp = std::to_string(ms.size()) + "," + std::to_string(ms.size());
+        else if (op == "ctrdtr")
+            exp = std::to_string(V(1)) + "," + std::to_string(V(1)) + "," + std::to_string(V(1)) + ",1";
+        else if (op == "mview")
+        {
+            static const std::map<int, int> ref{{1, 0}, {4, 10}, {7, 20}, {10, 30}};
+            auto it = ref.find(V(1));
+            exp = (it == ref.end() ? std::string("end") : std::to_string(std::distance(ref.begin(), it)) + ">" + std::to_string(it->second)) + ",4,4";
+        }
         else if (op == "sins")
             o.tag(ms.insert(I(1)).second ? "set-new" : "set-dup");
         else if (op == "scount")
@@ -1174,7 +1198,7 @@ struct Gen
         }
         for (int i = 0; i < n; i++)
         {
-            emit((R.chance(50) ? "push " : "eback ") + S(r) + " " + S(val()));
+            emit((R.chance(50) ? "push " : "eback ") + S(r) + " " + S(1 + (int)R.below(9))); // non-zero: the memory is dirty afterwards
         }
         sz[r] = n;
     }
@@ -1348,6 +1372,15 @@ struct Gen
                     one([&] { emit("resize 0 " + S(k)); sz[0] = k; });
                     one([&] { emit("reserve 0 " + S(k)); });
                 }
+                // value-initialisation on DIRTY memory: shrink (the slots keep the bytes of the destroyed elements), then
+                // grow again inside the capacity; a recycled block (the freed block of the same size class comes back)
+                for (int q = 0; q <= n; q++)
+                    one([&] { emit("eraseto 0 " + S(q)); emit("resize 0 " + S(n + slack)); sz[0] = n + slack; });
+                one([&] { emit("clear 0"); emit("resize 0 " + S(n + slack)); sz[0] = n + slack; });
+                if (n)
+                    one([&] { emit("pop 0"); emit("resize 0 " + S(n)); sz[0] = n; });
+                one([&] { emit("inval 0"); emit("szctor 0 " + S(n + slack)); sz[0] = n + slack; });
+                one([&] { emit("mctor 1 0"); emit("inval 1"); emit("szctor 0 " + S(n + slack)); sz[0] = n + slack; });
                 one([&] { emit("push 0 5"); sz[0] = n + 1; });
                 one([&] { emit("eback 0 5"); sz[0] = n + 1; });
                 if (n)
@@ -1479,9 +1512,9 @@ struct Gen
             int k = (int)R.range(0, keys) - off, v = (int)R.range(0, 99);
             switch (R.below(20))
             {
-            case 17: emit("miter"); break;
+            case 17: emit(compat || R.chance(60) ? "miter" : R.chance(50) ? "mmisc" : R.chance(50) ? "smisc" : "mview " + S(k)); break;
             case 18: emit(R.chance(40) ? "meq" : "mcget " + S(k)); break;
-            case 19: emit(R.chance(50) ? "miter" : "mcget " + S(k)); break;
+            case 19: emit(R.chance(45) ? "miter" : R.chance(10) ? "ctrdtr " + S(v) : "mcget " + S(k)); break;
             case 13: emit(R.chance(50) ? "msize" : "ssize"); break;
             case 14: emit("siter"); break;
             case 15: emit("sins " + S(k)); break;
@@ -1573,6 +1606,11 @@ struct Gen
             emit("mins " + S(p[0] + 4) + " 5");
             emit("miter");
             emit("meq");
+            if (!compat)
+            {
+                emit("mmisc");
+                emit("smisc");
+            }
             if (!cmp.empty())
             {
                 // keys that are equivalent to a stored one under the by-last-digit order, new ones under the others
